@@ -103,6 +103,14 @@ func shortFuncName(f *ssa.Function) string {
 	s := f.String()
 	s = strings.ReplaceAll(s, "github.com/centrifugal/centrifuge/", "")
 	s = strings.ReplaceAll(s, "github.com/centrifugal/", "")
+	// a package whose name differs from the last element of its import path (fossil-delta is package fdelta) is
+	// written with its declared name in contracts, as in the source
+	if f.Pkg != nil && f.Pkg.Pkg != nil {
+		path, name := f.Pkg.Pkg.Path(), f.Pkg.Pkg.Name()
+		if i := strings.LastIndex(path, "/"); i >= 0 && path[i+1:] != name && !strings.HasPrefix(path, "github.com/centrifugal/centrifuge") {
+			s = strings.ReplaceAll(s, path, path[:i+1]+name)
+		}
+	}
 	return s
 }
 
@@ -152,7 +160,7 @@ func (g *Gen) call(in ssa.Instruction, c *ssa.CallCommon, rt types.Type) Val {
 						g.ghostVals = map[string]Val{}
 					}
 					g.ghostVals[gh.Name] = rv
-					g.ghostDefs = append(g.ghostDefs, ghostDef{gh.Name, g.curBlock, rv})
+					g.ghostDefs = append(g.ghostDefs, ghostDef{gh.Name, g.curBlock, rv, false})
 					continue
 				}
 				g.pendingGhosts = append(g.pendingGhosts, gh)
@@ -342,7 +350,7 @@ func (g *Gen) builtin(name string, c *ssa.CallCommon, args []Val, rt types.Type,
 	case "delete":
 		mt := c.Args[0].Type().Underlying().(*types.Map)
 		g.frameCheck(Ptr{Prefix: "map:" + g.typeName(mt) + "#dom", Idx: []string{args[0].S}, T: types.Typ[types.Bool]}, pos)
-		g.mapDelete(args[0], mt, g.coerce(args[1], mt.Key()))
+		g.mapDelete(args[0], mt, g.keyCoerce(args[1], mt.Key()))
 		return Val{}
 	case "min", "max":
 		a, b := args[0], args[1]
